@@ -628,4 +628,5 @@ func main() {
 	writeIfChanged(filepath.Join(outdir, "GoAstRecv.v"), genGoAst(pkgs, astRecv))
 	writeIfChanged(filepath.Join(outdir, "GoAstStreams.v"), genGoAst(pkgs, astStreams))
 	writeIfChanged(filepath.Join(outdir, "GoAstSend.v"), genGoAst(pkgs, astSend))
+	writeIfChanged(filepath.Join(outdir, "GoAstSign.v"), genGoAst(pkgs, astSign))
 }
